@@ -784,6 +784,23 @@ func (s *Sym) evCall(env *Env, x ECall) TV {
 		}
 		m := s.getMap(env.st, "E:"+sortTag(es), "(Array Int "+mapSortOfElem(es)+")")
 		return TV{T: fmt.Sprintf("(select %s (sl-arr %s))", m, a[0].T), S: mapSortOfElem(es)}
+	case "structkey": // structkey(T, f1, ..., fn): the map key of a struct value of type T with these field values
+		if len(x.Args) < 2 {
+			bad("structkey(T, fields...)")
+		}
+		tn := typeArgString(x.Args[0])
+		nt := s.P.namedType(tn)
+		if nt == nil {
+			bad("structkey: unknown type %s", tn)
+		}
+		var sorts, args []string
+		for _, a := range x.Args[1:] {
+			v := s.ev(env, a)
+			sorts = append(sorts, v.S)
+			args = append(args, v.T)
+		}
+		f := s.declareFun("canon:"+typeShort(nt), sorts, "Int")
+		return TV{T: fmt.Sprintf("(%s %s)", f, strings.Join(args, " ")), S: "Int"}
 	case "substr": // substr(s, lo, hi): the bytes lo..hi-1 of a string (as the slice expression s[lo:hi])
 		a := argv()
 		t := a[0].T
